@@ -26,9 +26,9 @@ func (c04) ID() string { return "C04" }
 
 var c04Kinds = []spec.Kind{spec.String, spec.Int, spec.Int32, spec.Int64, spec.Float32, spec.Float64, spec.Bool, spec.Time, spec.Slice, spec.Ptr}
 
-// modifier alphabet: R = Required, O = Optional, P = Default(passing value), F = Default(value failing the node's test)
+// modifier alphabet: R = Required, O = Optional, P = Default(passing value), F = Default(value failing the node's test), C = Catch(value)
 var c04ModSeqs = func() [][]byte {
-	alpha := []byte("ROPF")
+	alpha := []byte("ROPFC")
 	out := [][]byte{{}}
 	var rec func(prefix []byte, depth int)
 	rec = func(prefix []byte, depth int) {
@@ -52,7 +52,7 @@ var c04CtxNames = [...]string{"top-level", "struct-field", "slice-element", "beh
 func (c04) Info(t core.Tier) core.Info {
 	return core.Info{
 		Level: "exploration",
-		Rule: fmt.Sprintf("EXHAUSTIVE decision table: %d node kinds (8 primitives, slice, pointer) x %d modifier sequences (all sequences of length <= 3 over Required/Optional/Default(valid)/Default(invalid); NotNil repetitions and pointee modifiers for pointers) x %d contexts (%v) x every input class "+
+		Rule: fmt.Sprintf("EXHAUSTIVE decision table: %d node kinds (8 primitives, slice, pointer) x %d modifier sequences (all sequences of length <= 3 over Required/Optional/Default(valid)/Default(invalid)/Catch; NotNil repetitions and pointee modifiers for pointers) x %d contexts (%v) x every input class "+
 			"(nil, missing key, \"\", 11 white-space forms incl. U+00A0/U+2003/U+3000/U+0085/U+2028, zero-width space, \"0\", 0, false, zero time, un-coercible, valid, empty/nil/non-empty slice; Validate: zero value, empty and nil slice, nil pointer, pointer to zero, valid) x {Parse, Validate}. one case = one (kind, modifiers, context) with all its inputs and modes. "+
 			"observed through: issue multiset (required / not_nil / coerce / test codes), recording tests (ran or not, and with which value), destination pre-filled with sentinels (written or not). every cell is non-trivial; distinct by cell. thorough adds random deeper nestings.", len(c04Kinds), len(c04ModSeqs), c04Contexts, c04CtxNames),
 		Assumptions: commonAssumptions,
@@ -68,26 +68,27 @@ func (c04) NumCases(t core.Tier) int { return c04TableCases() + tierN(t, 6000, 3
 type c04base struct {
 	witness, passDef, failDef any
 	test                      spec.Test
+	catchVal                  any
 }
 
 func c04Base(k spec.Kind) c04base {
 	switch k {
 	case spec.String:
-		return c04base{"abcd", "wxyz", "zz", spec.Test{Op: spec.TMin, N: 3}}
+		return c04base{"abcd", "wxyz", "zz", spec.Test{Op: spec.TMin, N: 3}, "CAUGHT"}
 	case spec.Bool:
-		return c04base{true, true, false, spec.Test{Op: spec.TTrue}}
+		return c04base{true, true, false, spec.Test{Op: spec.TTrue}, false}
 	case spec.Time:
-		return c04base{gen.BaseTime.Add(time.Hour), gen.BaseTime.Add(2 * time.Hour), gen.BaseTime.Add(-time.Hour), spec.Test{Op: spec.TAfter, Arg: gen.BaseTime}}
+		return c04base{gen.BaseTime.Add(time.Hour), gen.BaseTime.Add(2 * time.Hour), gen.BaseTime.Add(-time.Hour), spec.Test{Op: spec.TAfter, Arg: gen.BaseTime}, gen.BaseTime.Add(-77 * time.Hour)}
 	case spec.Int:
-		return c04base{9, 8, 1, spec.Test{Op: spec.TGT, Arg: 5}}
+		return c04base{9, 8, 1, spec.Test{Op: spec.TGT, Arg: 5}, -7}
 	case spec.Int32:
-		return c04base{int32(9), int32(8), int32(1), spec.Test{Op: spec.TGT, Arg: int32(5)}}
+		return c04base{int32(9), int32(8), int32(1), spec.Test{Op: spec.TGT, Arg: int32(5)}, int32(-7)}
 	case spec.Int64:
-		return c04base{int64(9), int64(8), int64(1), spec.Test{Op: spec.TGT, Arg: int64(5)}}
+		return c04base{int64(9), int64(8), int64(1), spec.Test{Op: spec.TGT, Arg: int64(5)}, int64(-7)}
 	case spec.Float32:
-		return c04base{float32(9), float32(8), float32(1), spec.Test{Op: spec.TGT, Arg: float32(5)}}
+		return c04base{float32(9), float32(8), float32(1), spec.Test{Op: spec.TGT, Arg: float32(5)}, float32(-7)}
 	case spec.Float64:
-		return c04base{float64(9), float64(8), float64(1), spec.Test{Op: spec.TGT, Arg: float64(5)}}
+		return c04base{float64(9), float64(8), float64(1), spec.Test{Op: spec.TGT, Arg: float64(5)}, float64(-7)}
 	}
 	panic("c04Base")
 }
@@ -129,6 +130,8 @@ func c04Cell(k spec.Kind, seq []byte) *spec.Node {
 				elem.Mods = append(elem.Mods, spec.Mod{Op: spec.MRequired})
 			case 'F':
 				elem.Mods = append(elem.Mods, spec.Mod{Op: spec.MDefault, Val: base.passDef})
+			case 'C':
+				elem.Mods = append(elem.Mods, spec.Mod{Op: spec.MCatch, Val: base.catchVal})
 			}
 		}
 		return n
@@ -145,6 +148,8 @@ func c04Cell(k spec.Kind, seq []byte) *spec.Node {
 			n.Mods = append(n.Mods, spec.Mod{Op: spec.MDefault, Val: base.passDef})
 		case 'F':
 			n.Mods = append(n.Mods, spec.Mod{Op: spec.MDefault, Val: base.failDef})
+		case 'C':
+			n.Mods = append(n.Mods, spec.Mod{Op: spec.MCatch, Val: base.catchVal})
 		}
 	}
 	return n
